@@ -2,6 +2,9 @@
 """Writes seeded/<ID>-<X>/meta.json from the sub-agent's agent_meta.json, my notes below and seeded/matrix.tsv."""
 import json,os,glob
 NOTES={
+ "C05-L":"tenth (tiny) round; caught at once (two modules with the same last segment, one imported under an alias with an unqualified list: pool since round 5)",
+ "C12-L":"tenth (tiny) round; `syntax_tree` retries for ever on a cancelled snapshot, so apply_change never returns. C12's workers stall on it (in-worker watchdog, then solo confirmation of each stalled case); the bounded mutant runner (tools/mrun.sh) cut the run off after 700 s before the coordinator had printed its verdict - recorded as `124` (no verdict in the time allowed), not as caught",
+
  "C09-K":"ninth (mini) round; caught at once (labelled callback after a positional argument)",
  "C10-K":"ninth (mini) round; caught at once (ill-typed self-application; the worker aborts, the case is confirmed alone)",
  "C16-K":"ninth (mini) round; same idea as C14-G (ranges of one notification converted up front), produced independently; caught at once (multi-change notifications in the races)",
@@ -98,7 +101,7 @@ if os.path.exists(p):
         f=line.rstrip('\n').split('\t')
         if len(f)<3: matrix[f[0]]={"error":f[1] if len(f)>1 else ""}; continue
         matrix[f[0]]={kv.split('=')[0]:int(kv.split('=')[1]) for kv in f[1:]}
-for p2 in ('/verif/seeded/round2.tsv','/verif/seeded/round3.tsv','/verif/seeded/round4.tsv','/verif/seeded/round5.tsv','/verif/seeded/round6.tsv','/verif/seeded/round7.tsv','/verif/seeded/round8.tsv','/verif/seeded/round9.tsv'):
+for p2 in ('/verif/seeded/round2.tsv','/verif/seeded/round3.tsv','/verif/seeded/round4.tsv','/verif/seeded/round5.tsv','/verif/seeded/round6.tsv','/verif/seeded/round7.tsv','/verif/seeded/round8.tsv','/verif/seeded/round9.tsv','/verif/seeded/round10.tsv'):
   if os.path.exists(p2):
     for line in open(p2):
         f=line.rstrip('\n').split('\t')
